@@ -59,6 +59,11 @@ CLAIMED = {
    text="85 single-move and 7,225 two-move scripts (pre-datagrams with wrong ID/question incl. over TCP, foreign answer/authority/additional records, out-of-zone CNAME continuation, seven bad referral kinds, four glue variants) x unsigned / signed+CD=1 x qname-minimisation, each on a fresh resolver: foreign-owned answer records must equal their owner's truth, later victim queries return truth or SERVFAIL, unmatched datagrams leave no trace, trap/loopback/local-interface addresses are never dialled.",
    design_ref="2.12",
    note="One defect found and repaired (fix: 2cb5269 foreign answer records relayed). IPv6 glue is not exercised (IPv6Access off); NS-address lookups below Z and DNAME are not expanded; time-dependent ghost-domain cases belong to C08."),
+ "C13": dict(
+   technique="TLA+ spec FailureCache.tla (one action per API call of the real FailureCache plus the request-level wrapper with outcomes useful / all-servers-failed / request-local causes, probe election with followers) model-checked with TLC (Envelope, EnvelopeStep, Containment, LocalNeverShared, OnlyWhatFailed, SingleProbe, ProbeFollowersWait, SuccessResets, KillSwitch, NoUpstreamOnHit); every labelled edge of the small graphs and simulated behaviours replayed on the real FailureCache (Now hook), request-level histories through the real edns+cache chain with a scripted failing downstream (message-born and wire-born), probe election with gated goroutines; every call recorded and validated by Trace_FailureCache",
+   text="Time is relative and the streak saturates, so the exhaustive configs are horizon-free; the replay checks on the real code that a hit comes only from the exact five-dimensional key or a failed ancestor zone of the same class, that back-off stays in the configured envelope and at most doubles, that request-local causes (budget, attempt limit, deadline, cancel, shed, best-effort, probe limit) never create shared state, that one probe leads after expiry, success resets, and the kill switch stops both recording and serving.",
+   design_ref="2.4",
+   note="One defect found and repaired (fix: ed8d7bf shed load cached). Causes living on the caller's context are injected on message-born requests only (a wire-born request is detached); the dns64/failover 'cached failure is terminal' wrappers are bound in C20; 64-bit hash collisions belong to C03."),
 }
 
 NOT_YET = {}
